@@ -160,11 +160,15 @@ func (t *ktr) ignorable(s ast.Stmt) bool {
 	return false
 }
 
-// plainSelector: p.f.g for a parameter p of the function (no calls, no indexing)
+// plainSelector: p.f.g for a parameter (or the receiver) p of the function (no calls, no indexing)
 func (t *ktr) plainSelector(e ast.Expr) bool {
 	switch x := unparen(e).(type) {
 	case *ast.Ident:
-		for _, fl := range t.fd.Type.Params.List {
+		plist := append([]*ast.Field(nil), t.fd.Type.Params.List...)
+		if t.fd.Recv != nil {
+			plist = append(plist, t.fd.Recv.List...)
+		}
+		for _, fl := range plist {
 			for _, n := range fl.Names {
 				if t.info.Defs[n] == t.info.Uses[x] && t.info.Uses[x] != nil {
 					return true
